@@ -236,8 +236,9 @@ BinOp(op, a, b, st) ==
           [] OTHER -> R(VNil, FailWith(st, "type"))
     ELSE IF a.t = "str" /\ op = "+" THEN R(VStr(a.s \o Show(b, st, FALSE)), st)
     ELSE IF b.t = "str" /\ op = "+" THEN R(VStr(Show(a, st, FALSE) \o b.s), st)
-    ELSE IF a.t = "str" /\ b.t = "int" /\ op = "*" THEN R(VStr(Repeat(a.s, b.v)), st)
-    ELSE IF a.t = "int" /\ b.t = "str" /\ op = "*" THEN R(VStr(Repeat(b.s, a.v)), st)      \* `n * s`: the same text; the operands are still evaluated left to right
+    \* a negative count has no text: the program stops (out of range conversion of the count)
+    ELSE IF a.t = "str" /\ b.t = "int" /\ op = "*" THEN (IF b.v < 0 THEN R(VNil, FailWith(st, "conversion")) ELSE R(VStr(Repeat(a.s, b.v)), st))
+    ELSE IF a.t = "int" /\ b.t = "str" /\ op = "*" THEN (IF a.v < 0 THEN R(VNil, FailWith(st, "conversion")) ELSE R(VStr(Repeat(b.s, a.v)), st))      \* `n * s`: the same text; the operands are still evaluated left to right
     ELSE R(VNil, FailWith(st, "type"))
 
 -----------------------------------------------------------------------------
